@@ -15,6 +15,9 @@ fn tag_of(h: &Harness, ni: usize) -> u32 {
 pub fn run_template(h: &mut Harness, ch: &mut Choices) {
     h.classes.templates += 1;
     let v2 = crate::choice::dv() >= 2;
+    if v2 && h.prof.writers && ch.flag(1, 4) {
+        return writer_links_target(h, ch);
+    }
     let n = if h.prof.subscriptions { 5 } else { 4 } + if v2 { 1 } else { 0 };
     match ch.choose(n) {
         0 => shared_source(h, ch),
@@ -340,6 +343,42 @@ fn switch_between_existing(h: &mut Harness, ch: &mut Choices) {
             if let Some(o) = extra.take() {
                 h.act_drop_obs(o, 0);
             }
+        }
+        h.act_stabilise();
+        h.after_action("stabilise");
+    }
+}
+
+/// decoder v2: a node function writes a variable whose watch node is only linked into the graph
+/// later in the same stabilise (a bind downstream of the writer switches to it), or whose last
+/// handle the writer gives up; the variable may or may not be observed elsewhere.
+fn writer_links_target(h: &mut Harness, ch: &mut Choices) {
+    let dv = some!(h.act_new_var(gen_value(ch)));
+    let d = h.vars[dv].tag;
+    let sv = some!(h.act_new_var(Val::I(0)));
+    let s = h.vars[sv].tag;
+    let thr = ch.choose(3) as i32 + if ch.flag(1, 4) { 10 } else { 0 };
+    let w = Expr::Writer(ch.byte() % 8, vec![(d, WRITE_OPS[ch.choose(5)], gen_value(ch), thr)], Box::new(Expr::Ref(s)));
+    let lhs = if ch.flag(1, 2) { Expr::Map(ch.byte() % 8, Box::new(w)) } else { w };
+    let target = |ch: &mut Choices| if ch.flag(1, 2) { Expr::Ref(d) } else { Expr::Map(ch.byte() % 8, Box::new(Expr::Ref(d))) };
+    let arms = vec![Expr::Const(gen_value(ch)), target(ch), target(ch)];
+    let out = some!(h.act_new_node(Expr::Bind(Box::new(lhs), Rc::new(arms))));
+    if ch.flag(1, 3) {
+        let dn = h.nodes.iter().position(|n| n.tag == d).unwrap();
+        h.act_observe(dn);
+    }
+    h.act_observe(out);
+    if ch.flag(1, 3) {
+        h.act_drop_var_handle(dv);
+    }
+    h.act_stabilise();
+    h.after_action("stabilise");
+    for _ in 0..2 + ch.choose(4) {
+        if ch.flag(3, 4) {
+            h.act_write(sv, WriteOp::Set, Val::I(ch.choose(6) as i32));
+        }
+        if ch.flag(1, 4) && h.vars[dv].var.is_some() {
+            h.act_write(dv, WRITE_OPS[ch.choose(5)], gen_value(ch));
         }
         h.act_stabilise();
         h.after_action("stabilise");
